@@ -263,6 +263,74 @@ pub enum PData {
     Bytes(Vec<u8>),
 }
 
+/// Maximal nesting depth of the containers (arrays, maps, tags) in a CBOR item, computed iteratively
+/// over the bytes (definite lengths only, which is all the IR encoder emits); None when the bytes are
+/// not one well-formed item of that kind.
+pub fn cbor_nesting_depth(bytes: &[u8]) -> Option<usize> {
+    let mut stack: Vec<u64> = vec![1];
+    let mut max = 0usize;
+    let mut i = 0usize;
+    while let Some(top) = stack.last_mut() {
+        if *top == 0 {
+            stack.pop();
+            continue;
+        }
+        *top -= 1;
+        let b = *bytes.get(i)?;
+        i += 1;
+        let major = b >> 5;
+        let ai = b & 0x1f;
+        let arg: u64 = match ai {
+            0..=23 => ai as u64,
+            24 => {
+                let v = *bytes.get(i)? as u64;
+                i += 1;
+                v
+            }
+            25 => {
+                let v = u16::from_be_bytes(bytes.get(i..i + 2)?.try_into().ok()?) as u64;
+                i += 2;
+                v
+            }
+            26 => {
+                let v = u32::from_be_bytes(bytes.get(i..i + 4)?.try_into().ok()?) as u64;
+                i += 4;
+                v
+            }
+            27 => {
+                let v = u64::from_be_bytes(bytes.get(i..i + 8)?.try_into().ok()?);
+                i += 8;
+                v
+            }
+            _ => return None,
+        };
+        match major {
+            0 | 1 | 7 => {}
+            2 | 3 => i = i.checked_add(usize::try_from(arg).ok()?)?,
+            4 => {
+                stack.push(arg);
+                max = max.max(stack.len() - 1);
+            }
+            5 => {
+                stack.push(arg.checked_mul(2)?);
+                max = max.max(stack.len() - 1);
+            }
+            _ => {
+                stack.push(1);
+                max = max.max(stack.len() - 1);
+            }
+        }
+        if i > bytes.len() {
+            return None;
+        }
+    }
+    if i == bytes.len() {
+        Some(max)
+    } else {
+        None
+    }
+}
+
 /// head of a definite-length CBOR byte string
 pub fn cbor_bytes_head(len: usize, out: &mut Vec<u8>) {
     match len {
